@@ -750,3 +750,15 @@ Fixpoint pos_guard (e : expr) : bool :=
                 && forallb (fun p => pos_guard (fst p)) d
   | _ => true
   end.
+(* the keys of an Add that are products carry the coefficient one (Add's canonical form: the
+   numeric factor of a term lives in the dictionary value); needed to relate Add::get_args,
+   which rebuilds a term as Mul(value, dict of the key), to the value of the term *)
+Fixpoint keys_ok (e : expr) : bool :=
+  match e with
+  | EAdd c d => forallb (fun p => match fst p with EMul c' _ => n_is_int_one c' | _ => true end
+                                  && keys_ok (fst p)) d
+  | EMul c d => forallb (fun p => keys_ok (fst p) && keys_ok (snd p)) d
+  | EPow b x => keys_ok b && keys_ok x
+  | EF1 _ a => keys_ok a
+  | _ => true
+  end.
